@@ -242,7 +242,15 @@ func (b *Bank) Op(id uint64) (op OpSpec) {
 			op.Kind = []string{"size", "enc", "dec"}[r.Intn(3)]
 			op.Buf = "generous"
 		default:
-			if b.Prof == "C17" {
+			if b.Prof == "C17" && roll >= 98 {
+				// arguments the codec refuses: a legacy control must not turn them into accepted ones
+				op.Kind, op.Arg = "arg", []string{"ptrptr", "ptrptr", "nil-typed-ptr", "struct-value", "nil", "ptr-int"}[r.Intn(6)]
+				op.Type = b.pickValid(r).Name
+				op.Legacy = []string{"size", "enc", "dec"}[r.Intn(3)]
+				if op.Arg == "struct-value" {
+					op.Legacy = "dec"
+				}
+			} else if b.Prof == "C17" {
 				op.Kind, op.Legacy = "legacy", legacyCalls[r.Intn(len(legacyCalls))]
 				op.Type = b.C.Structs[r.Intn(len(b.C.Structs))].Name
 			} else {
@@ -303,11 +311,15 @@ func (b *Bank) Op(id uint64) (op OpSpec) {
 		case roll < 50:
 			op.Kind = "size"
 			op.ByValue = r.Chance(1, 3)
-		case roll < 75:
+		case roll < 72:
 			op.Kind, op.Fault = "dec", "none"
 			if r.Chance(1, 4) {
 				op.Fault = pickFault(r)
 			}
+		case roll < 84:
+			// encode what was decoded from a foreign writer (bool bytes other than 0/1 kept as they came, unknown
+			// fields retained, nocopy views into the message): the encoder must leave that object alone too
+			op.Kind, op.Fault, op.Foreign = "reenc", "none", true
 		default:
 			op.Kind, op.Buf = "enc", "generous"
 		}
@@ -317,7 +329,7 @@ func (b *Bank) Op(id uint64) (op OpSpec) {
 	return op
 }
 
-var legacyCalls = []string{"pretouch", "pretouch-opts", "pretouch-nil", "pretouch-nonstruct", "nojit", "setdepth", "setil", "getstats", "options"}
+var legacyCalls = []string{"pretouch", "pretouch-opts", "pretouch-nil", "pretouch-nonstruct", "pretouch-ptrptr", "nojit", "nojit", "setdepth", "setil", "getstats", "options"}
 var argKinds = []string{"nil", "int", "string", "slice", "map", "ptrptr", "ptr-int", "nil-typed-ptr", "func", "struct-of-nonstruct-ptr", "struct-value", "struct-value", "ptrptr"}
 
 var faultKinds = []string{"none", "trunc", "trunc", "flip", "flip", "count", "count", "code", "ftype", "splice", "zerotail", "garbage"}
